@@ -31,9 +31,12 @@ func init() {
 }
 
 type c13Fault struct {
-	Pos    int    `json:"pos"`
-	Post   bool   `json:"post_effect,omitempty"`
-	Cancel bool   `json:"cancel_ctx,omitempty"`
+	Pos    int  `json:"pos"`
+	Post   bool `json:"post_effect,omitempty"`
+	Cancel bool `json:"cancel_ctx,omitempty"`
+	// CtxErr: the call fails with an error wrapping the context error (the Merge context is
+	// cancelled at that moment and the store reports it, nothing applied).
+	CtxErr bool   `json:"fails_with_context_error,omitempty"`
 	Kind   string `json:"kind,omitempty"`
 }
 
@@ -175,6 +178,10 @@ func runC13(rc *RunCtx, i int) {
 					if f.Cancel {
 						cancel()
 						return stores.Action{}
+					}
+					if f.CtxErr {
+						cancel()
+						return stores.Action{Fail: true, Err: fmt.Errorf("store gave up: %w", context.Canceled)}
 					}
 					return stores.Action{Fail: true, PostEffect: f.Post && (c.Kind == "Close" || c.Kind == "TombstoneFile" || c.Kind == "Abort")}
 				}
@@ -355,6 +362,9 @@ func runC13(rc *RunCtx, i int) {
 			continue
 		}
 		variants := []c13Fault{{Pos: p, Kind: k}}
+		if k == "Update" {
+			variants = append(variants, c13Fault{Pos: p, CtxErr: true, Kind: k})
+		}
 		if k == "Close" || k == "TombstoneFile" {
 			variants = append(variants, c13Fault{Pos: p, Post: true, Kind: k})
 		}
